@@ -7,6 +7,9 @@ import subprocess
 ROOT = os.path.dirname(os.path.dirname(os.path.abspath(__file__)))
 
 TLA = "explicit TLA+ specification (spec/*.tla) checked by TLC; "
+HFS = " The hfs build (hfs modifier, Kyber1024) is covered by the same method on a second harness build (KEM values as oracle terms)."
+PROBE = (" Every transport edge is followed by a model-computed probe round trip (I writes, R reads, R writes, I reads), so the keys "
+         "both sides hold after the edge are compared, not only the reported counters.")
 TB = ("trusted: TLC; the symbolic-crypto assumptions of spec/NoiseTerms.tla; the third-party primitive crates used by the "
       "independent evaluator (cross-checked against ring and anchored to the 472 Cacophony vectors); the harness executor")
 
@@ -16,89 +19,89 @@ CLAIMED = {
             "transport messages) for every pattern/psk-set/key-length/init class; the specification is first anchored to an "
             "independent implementation (472 Cacophony vectors); every transcript is replayed on snow and compared byte for "
             "byte through an independent term evaluator. Right level: conformance to a reference needs an executable reference "
-            "and byte-exact binding; inputs (keys, payloads, prologues) are sampled.",
+            "and byte-exact binding; inputs (keys, payloads, prologues) are sampled." + HFS,
             TLA + "scenario replay with byte-exact comparison (D1)"),
     "C02": ("model_checking", "5 (C02)",
             "TLC checks Completes/Agreement/Delivery/RawSplitAgrees on every state of honest sessions of all explored classes "
             "(stateful+stateless, both directions, payloads 0..max-fit); each behaviour is replayed on snow with per-call "
-            "comparison of results, lengths, hashes and delivered payloads.",
+            "comparison of results, lengths, hashes and delivered payloads." + HFS,
             TLA + "invariants on the session model + scenario replay (D1) + trace validation of real-RNG sessions (D2)"),
     "C03": ("model_checking", "5 (C03)",
             "Adversary = mutator/replayer without keys. TLC explores every single alteration class of every handshake message "
             "(per field flips/junk, truncation at and inside every field, extension, substitution by an earlier message), "
             "checks NoSilentCompletion and EncryptedFieldRejectedAtOnce, and predicts the failing call; the real code must "
-            "fail at that call.",
+            "fail at that call." + HFS,
             TLA + "adversary model + scenario replay (D1)"),
     "C04": ("model_checking", "5 (C04)",
             "MC_Transport offers every pool message to both endpoints (reflection, cross-direction), altered/truncated/"
             "extended/garbage/donor-session messages, and in stateless mode every nonce pair; invariant OnlyPeerAccepted; "
-            "every edge of the state graph is replayed on the code for default and ring-backed sessions.",
+            "every edge of the state graph is replayed on the code for default and ring-backed sessions." + PROBE,
             TLA + "edge-cover scenario replay (D1)"),
     "C05": ("model_checking", "5 (C05)",
             "All delivery schedules (reorder/loss/duplication/garbage/undersized buffers/explicit receiving nonce) explored "
             "exhaustively within the stated depth; invariants InOrderOnce, RejectIsNoOp; result and both nonces compared after "
-            "every call of every edge.",
+            "every call of every edge." + PROBE,
             TLA + "edge-cover scenario replay (D1) + trace validation of long random delivery schedules (D2)"),
     "C06": ("model_checking", "5 (C06)",
             "History variable aeadLog over both endpoints incl. failed calls, retries, late set_psk; invariants NoNonceReuse, "
             "ReservedUnused. On the code, a recording Cipher/Random (via Builder::with_resolver) logs every encryption and draw "
-            "and the same predicates are evaluated on the observed operations.",
+            "and the same predicates are evaluated on the observed operations." + HFS,
             TLA + "history-variable invariant + recording-resolver observation of replayed scenarios"),
     "C07": ("fault_enumeration", "5 (C07), Appendix A",
             "TLC enumerates the fault space from the model's message layout (every cause of Appendix A at every field boundary, "
             "both sides, every message) and computes the expected continuation; the code must return the documented error kind, "
-            "keep every observable unchanged and then produce exactly the failure-free bytes.",
+            "keep every observable unchanged and then produce exactly the failure-free bytes." + HFS,
             TLA + "model-derived fault enumeration replayed on the code (D1) + trace validation of faulty random sessions and of the repository's own tests (D2)"),
     "C08": ("model_checking", "5 (C08)",
             "The two endpoints are built with exactly one differing context item (prologue, one PSK, the pre-shared static "
             "key of the peer on either side: another valid key / the right key with one bit flipped), or overwrite a PSK "
             "with set_psk at any time; invariant MismatchNoChannel / OverwriteTakesEffect; the model predicts the failing "
             "call and the code must fail there. Name mismatches with different primitives are outside the symbolic "
-            "evaluator (one primitive set per scenario).",
+            "evaluator (one primitive set per scenario)." + HFS,
             TLA + "mismatch configurations of the session model + scenario replay (D1) + trace validation of mismatched sessions (D2)"),
     "C09": ("model_checking", "5 (C09)",
             "Counters are placed two below 2^64-1 (sender through the verif-hooks hook) and every interleaving of ok/failing "
             "reads/writes and explicit settings is explored; invariants StepsByOne, ExhaustedFails, ReservedUnused; the "
-            "recording cipher flags any use of nonce 2^64-1 other than the REKEY input.",
+            "recording cipher flags any use of nonce 2^64-1 other than the REKEY input." + PROBE,
             TLA + "edge-cover scenario replay at the top of the 64-bit range (D1) + recording cipher + Apalache inductive invariant for an unbounded counter (NonceInd.tla)"),
     "C10": ("exploration", "5 (C10)",
             "The model is total, so a panic/abort/stall is an event no action explains. TLC supplies the boundary cases "
             "(every Appendix-A cause at every field boundary, every call in every phase, key lengths, set_psk positions), "
             "replayed under catch_unwind; arbitrary contents/lengths/names come from a random protocol-agnostic driver "
-            "with a stall watchdog. Exploration level: contents are sampled, not exhausted.",
+            "with a stall watchdog. Exploration level: contents are sampled, not exhausted." + HFS,
             TLA + "model-derived boundary scenarios + random driver under catch_unwind"),
     "C11": ("model_checking", "5 (C11)",
             "MC_StateMachine explores every call sequence over the full API alphabet (both endpoints, all phases, early "
             "conversions, transport one-way rules) to a depth bound with a bound on failing calls, for all 38 patterns + psk "
-            "representatives; invariants Indicators, OutOfPhase, ConvertOnlyFinished, OneWayS; every edge replayed.",
+            "representatives; invariants Indicators, OutOfPhase, ConvertOnlyFinished, OneWayS; every edge replayed." + HFS,
             TLA + "edge-cover scenario replay (D1) + trace validation of the repository's own tests (D2)"),
     "C12": ("model_checking", "5 (C12)",
             "Complete enumeration of the finite build space (19 760 cases) with prerequisites derived from the token table "
             "of the specification; late-PSK sessions show the error arises at the message that needs the PSK and set_psk "
-            "repairs it.",
+            "repairs it." + HFS,
             TLA + "exhaustive enumeration replayed on the code (D1)"),
     "C13": ("model_checking", "5 (C13)",
             "Both directions: snow parses every name of the TLC-enumerated language (components and verbatim name compared; "
             "ParseName o NameOf = id checked by TLC), and TLC judges (ParseName of spec/NoiseNames.tla) every outcome snow "
-            "produces on generic character-level edits and random near-miss strings.",
+            "produces on generic character-level edits and random near-miss strings." + HFS,
             TLA + "grammar enumeration + TLC-judged parse records (D1 + D2)"),
     "C14": ("model_checking", "5 (C14)",
             "Lengths are computed by the model from the fields written (Framing invariant) and compared on every call; boundary "
-            "payloads (0, max-fit, max-fit+1) and buffers one byte / one tag short of every field end.",
+            "payloads (0, max-fit, max-fit+1) and buffers one byte / one tag short of every field end." + HFS,
             TLA + "Framing invariant + boundary scenario replay (D1)"),
     "C15": ("model_checking", "5 (C15)",
             "Every bounded sequence of write/deliver/rekey_outgoing/rekey_incoming/rekey_manually on both sides, stateful and "
             "stateless; REKEY(k) is a term evaluated from its definition with independent primitives so post-rekey bytes are "
-            "compared exactly; in-sync delivers, out-of-sync rejects follows from the AEAD law of the model.",
+            "compared exactly; in-sync delivers, out-of-sync rejects follows from the AEAD law of the model." + PROBE,
             TLA + "edge-cover scenario replay with byte-exact REKEY (D1) + trace validation of rekey storms and of the repository's own tests (D2)"),
     "C16": ("model_checking", "5 (C16)",
             "Stateless writes/reads under nonces {0,1,2,2^32,2^32+1,2^63,2^64-3..2^64-1} in any order and repetition, "
             "maximum-size payloads, default and ring backends; the expected message under nonce n is the term of the stateful "
-            "sender's n-th message. Thread interleavings are sampled by a multi-threaded driver (not enumerated).",
+            "sender's n-th message. Thread interleavings are sampled by a multi-threaded driver (not enumerated)." + PROBE,
             TLA + "edge-cover scenario replay (D1) + trace validation of 8 threads sharing one stateless session (D2)"),
     "C17": ("model_checking", "5 (C17)",
             "RemoteStaticCorrect on every state; get_remote_static() compared with the model term after every call on all three "
-            "state types for 32- and 65-byte keys, including after rejected reads and across both conversions.",
+            "state types for 32- and 65-byte keys, including after rejected reads and across both conversions." + HFS,
             TLA + "state invariant + per-call observable comparison (D1)"),
     "C18": ("other", "5 (C18)",
             "Only snow's own code at the primitive layer is decided: HMAC/HKDF as term rewriting over a raw hash, nonce "
@@ -109,12 +112,12 @@ CLAIMED = {
     "C19": ("model_checking", "5 (C19)",
             "For every failing read explored (3 read paths x alteration of tag / body / static-key field x buffer exact / "
             "+8 / large x all ciphers x default and ring backends) the model lists the plaintexts at stake (LeakSet) and the "
-            "caller's pre-filled buffer must not contain any 8-byte run of them.",
+            "caller's pre-filled buffer must not contain any 8-byte run of them." + HFS,
             TLA + "model-derived leak sets checked on replayed scenarios (D1)"),
     "C20": ("model_checking", "5 (C20)",
             "The specification is backend-free: every backend assignment {default, fallback(ring,default), "
             "fallback(default,ring)}^2 must conform to the same terms (honest sessions + transport edges, incl. exact-size "
-            "buffers); FallbackResolver truth table enumerated completely with marker resolvers.",
+            "buffers); FallbackResolver truth table enumerated completely with marker resolvers." + HFS,
             TLA + "scenario replay under all backend assignments + exhaustive truth table"),
 }
 
